@@ -7,7 +7,7 @@ def check(ctx):
     ctx.model("ShardKeyed", "MC_ShardKeyed.cfg", must_cover=("Export", "Tick", "Load", "Clean"))
     ctx.model("ShardKeyed", "MC_ShardKeyed_ctl.cfg", expect_violation="NeverDeletedEarly", coverage=False)
     ctx.model("ShardKeyed", "MC_ShardKeyed_ctl2.cfg", expect_violation="LoadsUnexpired", coverage=False)
-    k = 5 if thorough else 1
+    k = 6 if thorough else 2
     for i in range(k):
         sh_common.record(ctx, "keyed", 5, seed_off=i, need=("ShExport", "ShDedupPair", "ShExpiry", "ShKeyedFile", "ShKeyedTimes"))
     ctx.assumptions += sh_common.ASSUME + [
